@@ -245,9 +245,11 @@ def fake_simplifier():
     return s
 
 
-def unit_cases(rng, n, jobs, recs):
+def unit_cases(rng, n, jobs, recs, late=lambda: False):
     eg = G.ExprGen(rng)
-    for _ in range(n):
+    for it in range(n):
+        if it >= 150 and it % 50 == 0 and late():
+            break
         nsy = rng.choice([1, 2, 2, 3, 4])
         syms = [("s%d" % k, rng.choice(G.IrGen.NAMES), rng.choice(["size", "index", "loop"])) for k in range(nsy)]
         b = IrBuilder(rng, syms, rng.choice([1, 2, 4]))
@@ -426,16 +428,37 @@ def main():
     ap.add_argument("--nunit", type=int, default=200)
     ap.add_argument("--nmal", type=int, default=5)
     ap.add_argument("--cap", type=int, default=1500)
+    ap.add_argument("--budget", type=float, default=1e9, help="seconds; generation stops gracefully afterwards")
     a = ap.parse_args()
+    T0 = time.time()
+
+    def late(frac=1.0):
+        return time.time() - T0 > a.budget * frac
     rng = random.Random(a.seed * 1000003 + a.worker)
-    jobs, recs = [], []
+    os.makedirs(a.out, exist_ok=True)
+    jf = open(os.path.join(a.out, "jobs_%d.sexp" % a.worker), "w")
+    cf = open(os.path.join(a.out, "cases_%d.jsonl" % a.worker), "w")
+
+    class Sink(list):
+        """records are written as soon as they exist, so that a worker stopped by the time budget still counts"""
+
+        def append(self, rec):
+            cf.write(json.dumps(rec, default=str) + "\n")
+            cf.flush()
+
+    class JobSink(list):
+        def append(self, job):
+            jf.write(job + "\n")
+            jf.flush()
+
+    jobs, recs = JobSink(), Sink()
 
     def add(rec, job):
         if job is None:
             rec["nojob"] = True
             recs.append(rec)
             return
-        jobs.append(job)
+        jobs.append(job)      # the job line is written before its record: #records-with-job <= #jobs
         recs.append(rec)
 
     # ---- corpus first (worker 0 only)
@@ -451,46 +474,62 @@ def main():
                                      a.out, a.cap)
             rec["sample"] = c["name"] + "\n" + c["src"][-300:]
             add(rec, job)
-    # ---- source-text procs (plain and with an inlined callee)
-    for kind, count in (("src", a.nsrc), ("inline", a.ninline)):
-        for k in range(count):
-            g = G.SrcGen(rng, "w%d_%d" % (a.worker, k))
-            c = g.gen(inline=(kind == "inline"))
-            try:
-                mod, err = progen.load_module(progen.HEADER + c["src"], "c12")
-            except BaseException as e:  # noqa
-                mod, err = None, "%s: %s" % (type(e).__name__, e)
-            if mod is None:
-                recs.append({"stream": kind, "nojob": True, "rejected": True, "err": err[:160], "tags": ["front-end-reject"]})
-                continue
-            p = mod.p
-            rec, job = run_proc_case(kind, p._loopir_proc, lambda p=p: p, {"src": c["src"]}, a.out, a.cap)
-            rec["sample"] = c["src"][-400:]
-            add(rec, job)
-    # ---- direct LoopIR procs
+    # ---- malformed (cheap, first)
+    malformed_cases(rng, a.nmal, recs)
+
+    # ---- the generated streams, interleaved (so that a time budget thins all of them evenly)
     ig = G.IrGen(rng)
-    for k in range(a.nir):
+
+    def do_src(kind, k):
+        g = G.SrcGen(rng, "w%d_%d" % (a.worker, k))
+        c = g.gen(inline=(kind == "inline"))
+        try:
+            mod, err = progen.load_module(progen.HEADER + c["src"], "c12")
+        except BaseException as e:  # noqa
+            mod, err = None, "%s: %s" % (type(e).__name__, e)
+        if mod is None:
+            recs.append({"stream": kind, "nojob": True, "rejected": True, "err": err[:160], "tags": ["front-end-reject"]})
+            return
+        p = mod.p
+        rec, job = run_proc_case(kind, p._loopir_proc, lambda p=p: p, {"src": c["src"]}, a.out, a.cap)
+        rec["sample"] = c["src"][-400:]
+        add(rec, job)
+
+    def do_ir():
         desc = ig.gen()
         try:
             ir = build_ir_proc(desc)
         except Exception as e:
             recs.append({"stream": "ir", "nojob": True, "err": "build: %s" % e, "tags": ["build-error"]})
-            continue
+            return
         rec, job = run_proc_case("ir", ir, lambda ir=ir: Procedure(ir), {"desc": desc}, a.out, a.cap)
         rec["sample"] = str(ir)[-400:]
         add(rec, job)
-    # ---- unit level
-    unit_cases(rng, a.nunit, jobs, recs)
-    # ---- malformed
-    malformed_cases(rng, a.nmal, recs)
 
-    os.makedirs(a.out, exist_ok=True)
-    with open(os.path.join(a.out, "jobs_%d.sexp" % a.worker), "w") as f:
-        for j in jobs:
-            f.write(j + "\n")
-    with open(os.path.join(a.out, "cases_%d.jsonl" % a.worker), "w") as f:
-        for r in recs:
-            f.write(json.dumps(r, default=str) + "\n")
+    UNIT_BATCH = 40
+    schedule = ["src"] * a.nsrc + ["inline"] * a.ninline + ["ir"] * a.nir + ["unit"] * (a.nunit // UNIT_BATCH)
+    rng.shuffle(schedule)
+    # a guaranteed minimum of every stream comes first
+    head = ["src"] * min(a.nsrc, 4) + ["ir"] * min(a.nir, 4) + ["unit"] * 2 + ["inline"] * min(a.ninline, 2)
+    for x in head:
+        schedule.remove(x)
+    schedule = head + schedule
+    done = 0
+    for k, x in enumerate(schedule):
+        if late():
+            recs.append({"stream": "all", "nojob": True, "skip": "time-budget", "tags": ["time-budget"],
+                         "err": "%d of %d scheduled items run" % (done, len(schedule))})
+            break
+        if x in ("src", "inline"):
+            do_src(x, k)
+        elif x == "ir":
+            do_ir()
+        else:
+            unit_cases(rng, UNIT_BATCH, jobs, recs)
+        done += 1
+
+    jf.close()
+    cf.close()
 
 
 if __name__ == "__main__":
